@@ -131,3 +131,33 @@ func GoodPositionSentinel(s []int, x int) int {
 	}
 	return first
 }
+
+// MAKESIZE: nothing says a has at most n elements
+func BadMakeSizeComplement(n int, a []int) []int {
+	r := make([]int, 0, n-len(a))
+	for i := 0; i < n; i++ {
+		r = append(r, i)
+	}
+	return r
+}
+
+// MAKESIZE: the difference is guarded
+func GoodMakeSizeGuarded(n int, a []int) []int {
+	if len(a) > n {
+		return nil
+	}
+	r := make([]int, 0, n-len(a))
+	for i := 0; i < n; i++ {
+		r = append(r, i)
+	}
+	return r
+}
+
+// MAKESIZE: clamped
+func GoodMakeSizeClamped(n int, a []int) []int {
+	size := n - len(a)
+	if size < 0 {
+		size = 0
+	}
+	return make([]int, 0, size)
+}
